@@ -863,8 +863,8 @@ class NonlinearSolver(Solver):
                    f"{self._iter_count} iterations.")
             self.report_failure(msg)
 
-        # Solver hit maxiter without meeting desired tolerances.
-        elif norm > atol and norm / norm0 > rtol:
+        # Solver hit maxiter without meeting desired tolerances (a NaN ratio meets none).
+        elif not (norm <= atol or norm / norm0 <= rtol):
             self._convergence_failure()
 
         # Solver converged
